@@ -601,7 +601,18 @@ class Gen:
                 self.w(", ")
                 self.push()
                 self.bind(name, sym)
-                self.value(et, d)
+                if et[0] in ("int", "string", "bit") and r.random() < 0.35:
+                    # a body whose type the indexer cannot infer
+                    self.feat("!foreach-untyped-body")
+                    self.w("!cond(")
+                    self.value(BIT, d + 1)
+                    self.w(": ")
+                    self.value(et, d + 1)
+                    self.w(", true: ")
+                    self.value(et, d + 1)
+                    self.w(")")
+                else:
+                    self.value(et, d)
                 self.pop()
                 self.w(")")
             elif c == "filter":
@@ -972,19 +983,28 @@ class Gen:
         self.w(";")
         self.feat("defm")
 
-    def block(self, stmt, n=None):
-        """`{ stmts }` or a single statement; opens a scope"""
+    def block(self, stmt, n=None, first=None):
+        """`{ stmts }` or a single statement; opens a scope.  [first]: statement emitters run at the start of
+        the block (inside the braces)"""
         r = self.r
         self.push()
-        if r.random() < 0.3 and n is None:
+        if r.random() < 0.3 and n is None and not first:
             stmt()
         else:
             self.w("{")
             self.nl()
+            for f in first or []:
+                self.w("  ")
+                f()
+                self.nl()
             for _ in range(n if n is not None else r.choice([1, 2, 3])):
                 self.w("  ")
                 stmt()
                 self.nl()
+                if self.probe and not self.probed and self.in_mc == 0 and r.random() < 0.1:
+                    self.w("  ")
+                    if self.probe_stmt():
+                        self.nl()
             self.w("}")
         self.pop()
 
@@ -1033,15 +1053,71 @@ class Gen:
         self.feat("foreach")
 
     def if_stmt(self, stmt):
+        r = self.r
         self.w("if ")
         self.value(BIT, 1)
         self.w(" then ")
-        self.block(stmt)
-        if self.r.random() < 0.5:
+        has_else = r.random() < 0.5
+        then_first, else_first = [], []
+        if has_else and self.in_mc == 0 and r.random() < 0.5:
+            # a variable declared in the `then` branch must not be visible in the `else` branch:
+            # either it shadows an outer variable of the same name (the else branch sees the outer one) ...
+            outer = [(n, s) for n, s in self.visible().items()
+                     if s.kind in ("defvar", "foreach") and s.ty in (INT, STRING, BIT) and n not in self.frames[-1]
+                     and n not in (self.record_fields or ())]
+            if outer and r.random() < 0.6:
+                n0, s0 = r.choice(sorted(outer, key=lambda x: x[0]))
+                then_first.append(lambda: self.defvar_named(n0, s0.ty))
+                else_first.append(lambda: self.def_using(n0, s0))
+                self.feat("if-branch-shadow")
+            elif self.probe and not self.probed:
+                # ... or it is simply out of scope there
+                nm = self.fresh("bw")
+                then_first.append(lambda: self.defvar_named(nm, INT))
+                else_first.append(lambda: self.probe_name(nm))
+                self.feat("if-branch-probe")
+        self.block(stmt, first=then_first)
+        if has_else:
             self.w(" else ")
-            self.block(stmt)
+            self.block(stmt, first=else_first)
             self.feat("if-else")
         self.feat("if")
+
+    def defvar_named(self, name, t):
+        self.w("defvar ")
+        key = self.decl(name, "defvar")
+        self.w(" = ")
+        self.value_exact(t, 2)
+        self.w(";")
+        self.bind(name, Sym(key, t, "defvar"))
+
+    def def_using(self, name, sym):
+        """`def Dk { T f = name; }` with [name] expected to resolve to [sym]"""
+        self.w("def ")
+        dn = self.fresh("D")
+        self.decl(dn, "def")
+        for vn in self.paste_suffix():
+            self.w("#" + vn)
+        self.w(" { " + ty_text(sym.ty) + " ")
+        self.decl(self.fresh("f"), "field")
+        self.w(" = ")
+        self.use(name, sym.key, site="ident")
+        self.w("; }")
+
+    def probe_name(self, name):
+        self.w("def ")
+        self.decl(self.fresh("P"), "def")
+        for vn in self.paste_suffix():
+            self.w("#" + vn)
+        self.w(" { int ")
+        self.decl(self.fresh("pf"), "field")
+        self.w(" = ")
+        lo = self.here()
+        self.w(name)
+        self.p.notfound.append((self.cur, lo, self.here()))
+        self.w("; }")
+        self.probed = True
+        self.feat("probe")
 
     def let_stmt(self):
         """`let f = v in { defs of one class having field f }`"""
